@@ -509,6 +509,12 @@ def r7_to_map(ctx):
                   "map value = value.serialize(StringSerializer)=%s; callees %s" % (okv, vs.callee_names()), (sf, bb))
         rs = sf.slice(t["args"][0])
         ctx.check(R, "insert-into-output", rs.params() == [1] and rs.reads_field("output") and not rs.callees, "receiver is self.output", (sf, bb))
+    # Added after adversary change C12-I (`if !value.is_empty() { insert }`: a declared header whose value is the empty string -- a
+    # legal header value, and a legal Location -- was silently left out): a field that serialised successfully is always stored
+    if len(ins) == 1:
+        okr = ret_ok_sites(sf)
+        ctx.check(R, "every-serialised-field-is-stored", bool(okr) and all(sf.dominates(ins[0][0], b) for b, _ in okr),
+                  "Ok(..) returns of serialize_field: %d, each reached only through the insert into self.output: %s" % (len(okr), [sf.dominates(ins[0][0], b) for b, _ in okr]), (sf, ins[0][0]))
     ss = ctx.need_fn(ds, R, r"^<&mut to_map::StringSerializer as .*Serializer>::serialize_str$")
     oks = ret_ok_sites(ss)
     for b, stt in oks:
